@@ -1,26 +1,41 @@
 // C12 harness: formats (pattern, message, attributes) cases with the REAL PatternFormatter.
 // One case per input line, fields separated by one space, strings as hex UTF-16 code units
-// (4 hex digits per unit, "-" = empty string, "~" = null pointer for category/file/function):
+// (4 hex digits per unit, "-" = empty (non-null) string, "~" = null pointer for category/file/function
+// and a null QString for the message):
 //   pat type msg cat file fn line nattr (key tval)* ntf (timefmt)*
 //   tval = s<hex> (QString) | i<decimal> (int / qlonglong) | b0 | b1 (bool)
-// Output line:  <formatted> <threadId decimal> <qthreadptr decimal> <%{func} rendering> (<rendering of each timefmt>)*
+//
+// default mode, output line:
+//   <formatted> <N|V: result.isNull() or not> <threadId decimal> <qthreadptr decimal> <%{func} rendering> (<rendering of each timefmt>)*
 // Before every case a fixed "poison" pattern ending in a missing optional attribute (?0,3) is formatted on
 // the same thread, so that state leaking from one format() call into the next shows up in every case.
 // The last three groups are the environment the model takes as given (thread id, function-name
-// cleanup = C14, QDateTime::toString / process- and boot-relative seconds).
+// clean-up = C14, QDateTime::toString / process- and boot-relative seconds).
+//
+// mode "threads K ROUNDS MAXMS": all cases are read first; case i belongs to thread i mod K.  Every thread has
+// its OWN PatternFormatter and LogMessage objects (nothing shared at API level, no Logger mutex).  The
+// single-threaded result of every case is taken first (printed, so that the caller can compare it with the
+// model); then the K threads start behind a barrier and format their cases round-robin ROUNDS times (or
+// until MAXMS elapsed) comparing every result with the single-threaded one.  Output line per case:
+//   <single-threaded formatted> <calls made> <calls whose result differed> <first differing result or ->
 #ifdef VERIF_HEADER_ONLY
 #include "qtlogger.h"
 #else
 #include "qtlogger/qtlogger.h"
 #endif
+#include <atomic>
+#include <chrono>
 #include <iostream>
+#include <memory>
 #include <sstream>
+#include <thread>
 #include <vector>
 using namespace QtLogger;
 static QString unhex(const std::string &h)
 {
     QString s;
-    if (h == "-" || h == "~") return s;
+    if (h == "~") return s;
+    if (h == "-") return QStringLiteral("");
     s.reserve(int(h.size() / 4));
     for (size_t i = 0; i + 4 <= h.size(); i += 4)
         s.append(QChar(ushort(std::stoul(h.substr(i, 4), nullptr, 16))));
@@ -34,32 +49,90 @@ static std::string hex(const QString &s)
     for (QChar c : s) { snprintf(b, sizeof b, "%04x", unsigned(c.unicode())); o += b; }
     return o;
 }
-int main()
+struct Case
 {
-    std::ios::sync_with_stdio(false);
+    QString pat;
+    QByteArray c, f, fu;        // buffers the message's context points into
+    std::unique_ptr<LogMessage> m;
+    std::vector<QString> tfs;
+    // threads mode
+    std::unique_ptr<PatternFormatter> pf;
+    QString expected, firstBad;
+    long calls = 0, bad = 0;
+};
+static void parse(const std::string &line, Case &k)
+{
+    std::istringstream is(line);
+    std::string pat, msg, cat, file, fn;
+    int type = 0, ln = 0, nattr = 0, ntf = 0;
+    is >> pat >> type >> msg >> cat >> file >> fn >> ln >> nattr;
+    k.pat = unhex(pat);
+    k.c = unhex(cat).toLatin1(); k.f = unhex(file).toLatin1(); k.fu = unhex(fn).toLatin1();
+    QMessageLogContext ctx(file == "~" ? nullptr : k.f.constData(), ln, fn == "~" ? nullptr : k.fu.constData(),
+                           cat == "~" ? nullptr : k.c.constData());
+    k.m.reset(new LogMessage(QtMsgType(type), ctx, unhex(msg)));
+    for (int i = 0; i < nattr; i++) {
+        std::string key, v;
+        is >> key >> v;
+        if (v.empty()) continue;
+        if (v[0] == 's') k.m->setAttribute(unhex(key), unhex(v.substr(1)));
+        else if (v[0] == 'i') {
+            qlonglong x = std::stoll(v.substr(1));
+            if (x >= INT_MIN && x <= INT_MAX) k.m->setAttribute(unhex(key), int(x)); else k.m->setAttribute(unhex(key), x);
+        } else k.m->setAttribute(unhex(key), v == "b1");
+    }
+    is >> ntf;
+    for (int i = 0; i < ntf; i++) { std::string t; is >> t; k.tfs.push_back(unhex(t)); }
+}
+static int threadsMode(int K, long rounds, long maxms)
+{
+    std::vector<std::unique_ptr<Case>> cs;
     std::string line;
     while (std::getline(std::cin, line)) {
-        std::istringstream is(line);
-        std::string pat, msg, cat, file, fn;
-        int type = 0, ln = 0, nattr = 0, ntf = 0;
-        is >> pat >> type >> msg >> cat >> file >> fn >> ln >> nattr;
-        QByteArray c = unhex(cat).toLatin1(), f = unhex(file).toLatin1(), fu = unhex(fn).toLatin1();
-        QMessageLogContext ctx(file == "~" ? nullptr : f.constData(), ln, fn == "~" ? nullptr : fu.constData(),
-                               cat == "~" ? nullptr : c.constData());
-        LogMessage m(QtMsgType(type), ctx, unhex(msg));
-        for (int i = 0; i < nattr; i++) {
-            std::string k, v;
-            is >> k >> v;
-            if (v.empty()) continue;
-            if (v[0] == 's') m.setAttribute(unhex(k), unhex(v.substr(1)));
-            else if (v[0] == 'i') {
-                qlonglong x = std::stoll(v.substr(1));
-                if (x >= INT_MIN && x <= INT_MAX) m.setAttribute(unhex(k), int(x)); else m.setAttribute(unhex(k), x);
-            } else m.setAttribute(unhex(k), v == "b1");
-        }
-        is >> ntf;
-        std::vector<QString> tfs;
-        for (int i = 0; i < ntf; i++) { std::string t; is >> t; tfs.push_back(unhex(t)); }
+        cs.emplace_back(new Case);
+        parse(line, *cs.back());
+        cs.back()->pf.reset(new PatternFormatter(cs.back()->pat));
+        cs.back()->expected = cs.back()->pf->format(*cs.back()->m);
+    }
+    std::atomic<int> ready{0};
+    std::atomic<bool> go{false};
+    std::vector<std::thread> ts;
+    for (int t = 0; t < K; t++) {
+        ts.emplace_back([&, t]() {
+            std::vector<Case *> mine;
+            for (size_t i = size_t(t); i < cs.size(); i += size_t(K)) mine.push_back(cs[i].get());
+            ready++;
+            while (!go.load(std::memory_order_acquire)) { }
+            auto t0 = std::chrono::steady_clock::now();
+            for (long r = 0; r < rounds && !mine.empty(); r++) {
+                for (Case *k : mine) {
+                    QString got = k->pf->format(*k->m);
+                    k->calls++;
+                    if (got != k->expected || got.isNull() != k->expected.isNull()) {
+                        if (k->bad++ == 0) k->firstBad = got;
+                    }
+                }
+                if ((r & 63) == 0 && std::chrono::steady_clock::now() - t0 > std::chrono::milliseconds(maxms)) break;
+            }
+        });
+    }
+    while (ready.load() < K) { }
+    go.store(true, std::memory_order_release);
+    for (auto &t : ts) t.join();
+    for (auto &k : cs)
+        std::cout << hex(k->expected) << ' ' << k->calls << ' ' << k->bad << ' ' << hex(k->firstBad) << "\n";
+    return 0;
+}
+int main(int argc, char **argv)
+{
+    std::ios::sync_with_stdio(false);
+    if (argc >= 5 && std::string(argv[1]) == "threads")
+        return threadsMode(std::stoi(argv[2]), std::stol(argv[3]), std::stol(argv[4]));
+    std::string line;
+    while (std::getline(std::cin, line)) {
+        Case k;
+        parse(line, k);
+        LogMessage &m = *k.m;
         std::ostringstream o;
         try {
             // history independence: a previous format() call on this thread that ends with a missing
@@ -68,10 +141,11 @@ int main()
                 LogMessage pm(QtDebugMsg, QMessageLogContext(), QStringLiteral("poison"));
                 (void)PatternFormatter(QStringLiteral("p%{verif_poison_attr?0,3}")).format(pm);
             }
-            PatternFormatter pf(unhex(pat));
-            o << hex(pf.format(m)) << ' ' << m.threadId() << ' ' << qulonglong(m.qthreadptr()) << ' '
+            PatternFormatter pf(k.pat);
+            const QString res = pf.format(m);
+            o << hex(res) << ' ' << (res.isNull() ? 'N' : 'V') << ' ' << m.threadId() << ' ' << qulonglong(m.qthreadptr()) << ' '
               << hex(PatternFormatter(QStringLiteral("%{func}")).format(m));
-            for (const QString &t : tfs) {
+            for (const QString &t : k.tfs) {
                 QString r;
                 if (t == QLatin1String("process") || t == QLatin1String("boot"))
                     r = PatternFormatter(QStringLiteral("%{time ") + t + QStringLiteral("}")).format(m);
